@@ -253,6 +253,14 @@ class EngineCore:
             fr = d.get("$parent")
         if name in ctx.specials:
             return ctx.specials[name]
+        if ctx.spec and "$outer_frame" in ctx.specials:
+            # specification inside the body of an inlined generator function: the caller's locals (self, ghost stream)
+            fr = ctx.specials["$outer_frame"]
+            while fr is not None:
+                d = st.heap[fr.oid]
+                if name in d:
+                    return d[name]
+                fr = d.get("$parent")
         if ctx.spec and ctx.old is not None:
             # a parameter deleted by the body (`del buffer`) is still nameable in specifications
             ost, ofr = ctx.old
